@@ -159,6 +159,7 @@ class BaseBatch(abc.ABC):
         if batch_response.is_success:
             response_map = {response.id: response for response in batch_response if response.id is not None}
 
+            related = []
             for request in batch_request:
                 if request.id is not None:
                     response = response_map.pop(request.id, None)
@@ -166,6 +167,10 @@ class BaseBatch(abc.ABC):
                         raise exceptions.IdentityError(f"response '{request.id}' not found")
                     elif response is not None:
                         response.related = request
+                        related.append(response)
+
+            # the server may answer in any order: keep the responses in the order the calls were made
+            batch_response._responses = related + [resp for resp in batch_response if resp.related is None]
 
             if response_map and self._client.strict:
                 raise exceptions.IdentityError(f"unexpected response found: {response_map.keys()}")
